@@ -57,7 +57,10 @@ def _dataframe_to_dataset(
     dimension_name: Hashable,
 ) -> xarray.Dataset:
     """Convert a pandas DataFrame to an xarray Dataset."""
-    dataframe = dataframe.copy()
+    # Rows are identified by their row number, as extract_points() numbers the points.
+    # The index of the dataframe can be anything, such as the remains of the
+    # index of a larger dataframe after filtering or sorting it.
+    dataframe = dataframe.reset_index(drop=True)
     dataframe.index.name = dimension_name
     dataset = dataframe.to_xarray()
     return dataset
